@@ -89,6 +89,11 @@ fn reader_oracle(b: &[u8], expect: &str, run: &dyn Fn(ReaderSel) -> (String, usi
         }
         if got != expect && expect != "panic" {
             fails.push(format!("FAIL:c02-reader:{}:got={}", name, got.replace(' ', "_")));
+            // the decoder is generic over its reader: what it answers through a conforming reader is the decoder's
+            // answer as much as what it answers through SliceReader (accepted language and values: C05; verdict and
+            // error list of a control message: C15)
+            fails.push(format!("FAIL:c05-reader:{}:differs-from-the-slice-reader", name));
+            fails.push(format!("FAIL:c15-reader:{}:differs-from-the-slice-reader", name));
         }
     }
     if fails.is_empty() {
@@ -1326,6 +1331,10 @@ fn run(f: &[&str]) -> Option<String> {
                         v.push(format!("FAIL:c15-count:{}-errors-for-{}-bad-records", es.len(), nbad));
                     }
                 }
+            }
+            let orc = reader_oracle(&b, &show(&r), &|sel| with_reader(sel, &|rd| rd.dec(&strict())));
+            if orc != "ok" {
+                v.push(orc);
             }
             format!("{} | {}", show(&r), join(v))
         }
